@@ -141,6 +141,15 @@ def corpus(tier, seed):
             add([('start', e)] + ([X_RULE] if 'x' in pr(e).split() else []), 'same-op-twice')
         # the same body in two different rules
         add([('start', ('cat', [('opt', S), ('n', 'y')])), ('y', ('cat', [('star', S), b]))] + ([X_RULE] if 'x' in pr(S).split() else []), 'two-rules')
+    # two different bodies made of the same symbols under the same operator (they must not share a rule)
+    bodies = [('cat', [a, b]), ('alt', [a, b]), ('cat', [b, a]), ('alt', [b, a]), ('alt', [('cat', [a, b]), a]), ('cat', [a, ('alt', [b, a])]),
+              ('alt', [a, ('cat', [b, a])]), ('cat', [a, a]), ('alt', [a, ('eps',)]), ('cat', [a, b, a]), ('alt', [('cat', [a, b]), ('cat', [b, a])]), ('cat', [x, a]), ('alt', [x, a])]
+    for op in ops:
+        for S1, S2 in itertools.permutations(bodies, 2):
+            e = ('cat', [(op, S1), T, (op, S2)])
+            add([('start', e)] + ([X_RULE] if 'x' in pr(e).split() else []), 'similar-bodies')
+    for S1, S2 in itertools.combinations(bodies[:8], 2):
+        add([('start', ('cat', [a, ('grp', S1)])), ('y', ('cat', [b, ('grp', S2)])), ('z', ('alt', [('n', 'start'), ('n', 'y')]))], 'similar-bodies')
     # empty rules, recursion through synthesised rules
     add([('start', ('cat', [a, ('n', 'e')])), ('e', None)], 'empty-rule')
     add([('start', ('alt', [('cat', [a, ('n', 'start')]), ('eps',)]))], 'recursion')
